@@ -88,7 +88,7 @@ func c05Lists(maxLen int, longLens []int) *core.Scenario {
 	return &core.Scenario{
 		Name: "data_lists", Bound: -1,
 		Rule: "DB/DW/DD x every operand list of length 1..maxLen over the 27-item alphabet, plus rotations of the alphabet at the long lengths; non-trivial = assembled without diagnostic and emitted >=1 byte; distinct = distinct emitted byte strings",
-		Bounds: map[string]any{"directives": []string{"DB", "DW", "DD"}, "alphabet": len(alpha), "max_len": maxLen, "long_lens": longLens, "origins": []string{"none", "0x7c00"}},
+		Bounds: map[string]any{"directives": []string{"DB", "DW", "DD"}, "alphabet": len(alpha), "max_len": maxLen, "long_lens": longLens, "origins": []string{"none", "0x7c00", "0x280000"}},
 		Build: func(c *core.Chooser) *core.Case {
 			dir := c.Str("dir", "DB", "DW", "DD")
 			nShort := maxLen
@@ -113,9 +113,15 @@ func c05Lists(maxLen int, longLens []int) *core.Scenario {
 					hasAddr = true
 				}
 			}
-			if hasAddr && c.Bool("org") {
-				origin = 0x7c00
-				org = "\tORG 0x7c00\n"
+			if hasAddr {
+				switch c.Pick("org", 3) {
+				case 1:
+					origin = 0x7c00
+					org = "\tORG 0x7c00\n"
+				case 2: // label and $ values above 0xFFFF (haribote's bootpack lives at 0x280000)
+					origin = 0x280000
+					org = "\tORG 0x280000\n"
+				}
 			}
 			var texts, kinds []string
 			coreSupported := true
